@@ -640,6 +640,16 @@ class RunMonitor(H.NullMonitor):
                 self.viol("C03", "finish.resources_released_at",
                           f"{sh.key} finished at {t} but left its worker at "
                           f"{sh.remove_t}")
+        # C12 (consequence): planner runs with enforcement and exact runtimes
+        if self.enforce and self.variance == 0 and self.policy in (
+                "ILP", "TetriSched_Gurobi", "TetriSched_CPLEX", "Clockwork"):
+            dl = us(task.deadline)
+            self.stat("finishes_judged_against_deadline")
+            if t > dl:
+                self.viol("C12", "finish.after_deadline",
+                          f"{sh.key} completed at {t} > deadline {dl} under "
+                          f"{self.policy} with deadline enforcement (started {s}, "
+                          f"decided for {sh.decided_t})")
         self.stat("finishes")
 
     def _check_placement_attempt(self, sim, ev):
